@@ -690,7 +690,10 @@ pub fn run_c10(ctx: &Ctx) -> i32 {
         for w in 0..ctx.workers {
             let (next, progress, current, shared, done) = (&next, &progress, &current, &shared, &done);
             s.spawn(move || {
-                let stack = Stack::new(StoreKind::Plain, 50);
+                // every other worker executes against a store with random eviction and a small limit: what a
+                // hostile client can do to the eviction loop (requests that are accounted but store nothing,
+                // overwrites, expiries) belongs to "never panics or loops" as well
+                let stack = Stack::new(if w % 2 == 1 { StoreKind::Random([600u64, 2000, 20_000][(w / 2) % 3]) } else { StoreKind::Plain }, 50);
                 let mut local: BTreeMap<String, u64> = BTreeMap::new();
                 let mut fps: Vec<u64> = vec![];
                 let mut evals = 0u64;
